@@ -248,6 +248,7 @@ class TokenStore(Generic[_T]):
                     *self._blocks[end_i].tokens[end_j:], 
                 ])
             ]
+            self._update_block_indexes(start_i + 1)
             self._update_block(self._blocks[start_i])
         self._len += len(tokens) - len_removed
 
